@@ -473,3 +473,83 @@ pub fn c16_subst() -> i32 {
     } } }
     report(found, tried)
 }
+
+// ---------------------------------------------------------------------------------------------
+// C11 / U-VALIDATE: every sequence of <= 3 registrations over known and unknown paths (specific / recursive derives and
+// attributes, empty registrations, substitutes); the result of validation compared, as sets, with an independent model
+pub fn c11_validate() -> i32 {
+    use scale_typegen::typegen::settings::substitutes::absolute_path;
+    use scale_typegen::typegen::validation::validate_substitutes_and_derives_against_registry;
+    use scale_typegen::TypeSubstitutes;
+    use std::collections::{BTreeMap, BTreeSet};
+    let reg = registry(vec![
+        ty("", vec![], prim(TypeDefPrimitive::U8)),
+        ty("a::B", vec![], composite(vec![field(Some("x"), 0, Some("u8"))])),
+        ty("C", vec![], composite(vec![])),
+    ]);
+    let paths = ["a::B", "x::Y", "Z", "a::Q"];
+    let known = |p: &str| p == "a::B" || p == "C";
+    let tp = |s: &str| -> syn::TypePath { syn::parse_str(s).unwrap() };
+    let p = |s: &str| -> syn::Path { syn::parse_str(s).unwrap() };
+    let at = |s: &str| -> syn::Attribute { let id: syn::Ident = syn::parse_str(s).unwrap(); syn::parse_quote!(#[#id]) };
+    let show = |t: &dyn quote::ToTokens| t.to_token_stream().to_string().replace(' ', "");
+    // operation kinds on a path: 0 derive D1 specific, 1 derive D2 recursive, 2 attr s specific, 3 attr r recursive,
+    // 4 empty derive list specific, 5 substitute -> ::t::T<kind-independent target per path>
+    let mut ops: Vec<(usize, usize)> = vec![];
+    for pi in 0..paths.len() { for k in 0..6 { ops.push((pi, k)); } }
+    let n = ops.len();
+    let mut seqs: Vec<Vec<usize>> = vec![vec![]];
+    for a in 0..n { seqs.push(vec![a]); for b in 0..n { seqs.push(vec![a, b]); } }
+    // length 3: a sample that keeps the run short but mixes all kinds on two unknown paths and a known one
+    for a in 0..n { for b in 0..n { for c in [1usize * 6 + 1, 1 * 6 + 2, 2 * 6 + 0, 1 * 6 + 5, 0 * 6 + 3] { seqs.push(vec![a, b, c]); } } }
+    let mut tried = 0;
+    let mut found = None;
+    'o: for seq in seqs {
+        tried += 1;
+        let mut d = DerivesRegistry::new();
+        let mut s = TypeSubstitutes::new();
+        let mut md: BTreeMap<String, BTreeSet<String>> = BTreeMap::new();
+        let mut ma: BTreeMap<String, BTreeSet<String>> = BTreeMap::new();
+        let mut ms: BTreeMap<String, String> = BTreeMap::new();
+        for &o in &seq {
+            let (pi, k) = ops[o];
+            let path = paths[pi];
+            match k {
+                0 => { d.add_derives_for(tp(path), [p("D1")], false); if !known(path) { md.entry(path.into()).or_default().insert("D1".into()); } }
+                1 => { d.add_derives_for(tp(path), [p("D2")], true); if !known(path) { md.entry(path.into()).or_default().insert("D2".into()); } }
+                2 => { d.add_attributes_for(tp(path), [at("s")], false); if !known(path) { ma.entry(path.into()).or_default().insert("#[s]".into()); } }
+                3 => { d.add_attributes_for(tp(path), [at("r")], true); if !known(path) { ma.entry(path.into()).or_default().insert("#[r]".into()); } }
+                4 => { d.add_derives_for(tp(path), Vec::<syn::Path>::new(), false); }
+                _ => {
+                    let tgt = format!("::t::T{pi}");
+                    s.insert(p(path), absolute_path(p(&tgt)).unwrap()).unwrap();
+                    if !known(path) { ms.insert(path.into(), tgt); }
+                }
+            }
+        }
+        let r = panic::catch_unwind(panic::AssertUnwindSafe(|| validate_substitutes_and_derives_against_registry(&s, &d, &reg)));
+        let describe = || format!("registrations {:?} over paths {paths:?} (kinds: 0 derive specific, 1 derive recursive, 2 attr specific, 3 attr recursive, 4 empty specific, 5 substitute); registry paths a::B, C",
+            seq.iter().map(|&o| ops[o]).collect::<Vec<_>>());
+        let r = match r { Ok(r) => r, Err(_) => { found = Some((describe(), "validation panicked".into())); break 'o; } };
+        let want_ok = md.is_empty() && ma.is_empty() && ms.is_empty();
+        match r {
+            Ok(()) => if !want_ok { found = Some((describe(), format!("validation succeeded although unknown paths are configured: derives {md:?}, attributes {ma:?}, substitutes {ms:?}"))); break 'o; },
+            Err(e) => {
+                if want_ok { found = Some((describe(), format!("validation failed although every configured path is known: {e}"))); break 'o; }
+                let gd: Vec<(String, BTreeSet<String>)> = e.derives_for_unknown_types.iter().map(|(k, v)| (show(k), v.iter().map(|x| show(x)).collect())).collect();
+                let ga: Vec<(String, BTreeSet<String>)> = e.attributes_for_unknown_types.iter().map(|(k, v)| (show(k), v.iter().map(|x| show(x)).collect())).collect();
+                let gs: Vec<(String, String)> = e.substitutes_for_unknown_types.iter().map(|(k, v)| (show(k), show(v))).collect();
+                let gdm: BTreeMap<String, BTreeSet<String>> = gd.iter().cloned().collect();
+                let gam: BTreeMap<String, BTreeSet<String>> = ga.iter().cloned().collect();
+                let gsm: BTreeMap<String, String> = gs.iter().cloned().collect();
+                if gdm.len() != gd.len() || gam.len() != ga.len() || gsm.len() != gs.len() {
+                    found = Some((describe(), format!("an unknown path is listed more than once: {gd:?} {ga:?} {gs:?}"))); break 'o;
+                }
+                if gdm != md || gam != ma || gsm != ms {
+                    found = Some((describe(), format!("error lists derives {gdm:?} attributes {gam:?} substitutes {gsm:?}; expected {md:?} {ma:?} {ms:?}"))); break 'o;
+                }
+            }
+        }
+    }
+    report(found, tried)
+}
